@@ -154,6 +154,7 @@ struct Rec
   unsigned long long step;
   bool is_flush{false};
   bool is_destroy{false};
+  std::string nargs; // "k=v,k=v" of the named arguments handed to the sink
 };
 
 struct World;
@@ -203,13 +204,16 @@ public:
 
   void write_log(quill::MacroMetadata const*, uint64_t ts, std::string_view thread_id, std::string_view, std::string const&,
                  std::string_view logger, quill::LogLevel level, std::string_view, std::string_view,
-                 std::vector<std::pair<std::string, std::string>> const*, std::string_view msg, std::string_view statement) override
+                 std::vector<std::pair<std::string, std::string>> const* na, std::string_view msg, std::string_view statement) override
   {
     ++writes;
     _dirty = true;
     if (on_write) on_write(writes, msg);
+    std::string nas;
+    if (na)
+      for (auto const& kv : *na) nas += kv.first + "=" + kv.second + ",";
     g_world->recs.push_back(Rec{_id, std::string(logger), static_cast<int>(level), std::string(msg), std::string(statement), ts,
-                                std::string(thread_id), g_ctl->step, false, false});
+                                std::string(thread_id), g_ctl->step, false, false, nas});
   }
   void flush_sink() override
   {
